@@ -420,3 +420,42 @@ def reset_rekick_rule(rep: Report, prog: Program, PROP: str, RULE: str) -> None:
                                 + ": stream resets queued in the meantime never go out and those channels stay `closing`", construct="reset response re-kick"))
     if ok:
         rep.ok(RULE, "_receive_reconfig_param: completing a request clears it and then restarts _transmit_reconfig", sample=f"{len(clears)} site(s)")
+
+
+def close_all_channels_rule(rep: Report, prog: Program, PROP: str, RULE: str) -> None:
+    """Every container of the SCTP transport that can hold a data channel is drained when the association closes: a channel that
+    is only referenced from a queue (it never got an id) must be closed as well."""
+    from engine.index import walk_no_nested
+    T = "rtcsctptransport.RTCSctpTransport"
+    ci = prog.cls(T)
+    holders: Dict[str, str] = {}
+    for fi in ci.methods.values():
+        for n in walk_no_nested(fi.node):
+            if isinstance(n, ast.Assign) and isinstance(n.targets[0], ast.Subscript) and unparse(n.targets[0].value).startswith("self.") and unparse(n.value) == "channel":
+                holders.setdefault(unparse(n.targets[0].value), f"{fi.name}: {unparse(n)[:50]}")
+            if isinstance(n, ast.Call) and isinstance(n.func, ast.Attribute) and n.func.attr in ("append", "appendleft", "add") and unparse(n.func.value).startswith("self.") and n.args:
+                a = n.args[0]
+                if unparse(a) == "channel" or (isinstance(a, ast.Tuple) and any(unparse(x) == "channel" for x in a.elts)):
+                    holders.setdefault(unparse(n.func.value), f"{fi.name}: {unparse(n)[:50]}")
+    if len(holders) < 2:
+        raise AnalysisError(f"containers holding data channels not found ({holders})")
+    ss = prog.func(T + "._set_state")
+    closed_branch = [n for n in walk_no_nested(ss.node) if isinstance(n, ast.If) and "State.CLOSED" in unparse(n.test)]
+    stmts: List[ast.stmt] = []
+    for n in closed_branch:
+        stmts += n.body if "==" in unparse(n.test) else []
+        # `if state == ESTABLISHED: ... elif state == CLOSED:` puts the CLOSED body in an orelse If, which walk finds on its own
+    body_txt_nodes = [x for s in stmts for x in ast.walk(s)]
+    for cont, where in sorted(holders.items()):
+        drained = False
+        for x in body_txt_nodes:
+            if isinstance(x, ast.For) and cont in unparse(x.iter):
+                inner = " ".join(unparse(b) for b in x.body)
+                if "_setReadyState('closed')" in inner or "_data_channel_closed(" in inner:
+                    drained = True
+        if drained:
+            rep.ok(RULE, f"_set_state(CLOSED) closes every channel held in {cont}", sample=f"filled by {where}")
+        else:
+            rep.fail(mk_finding(prog, PROP, RULE, ss, closed_branch[0] if closed_branch else ss.node,
+                                f"data channels can be held in {cont} ({where}) but closing the association does not close the channels found there: a channel created "
+                                f"shortly before close() (it has no id yet) stays `connecting` for ever", construct=f"channels in {cont} not closed"))
